@@ -94,10 +94,10 @@ pub struct DiskCache<K: CacheKey> {
     config: DiskCacheConfig,
     /// In-memory index of cached entries
     index: Arc<RwLock<HashMap<K, DiskCacheEntry>>>,
-    /// Current number of entries (atomic for fast access)
-    entry_count: AtomicUsize,
-    /// Current disk usage in bytes (atomic for fast access)
-    disk_usage: AtomicU64,
+    /// Current number of entries (atomic for fast access, shared with the cleanup task)
+    entry_count: Arc<AtomicUsize>,
+    /// Current disk usage in bytes (atomic for fast access, shared with the cleanup task)
+    disk_usage: Arc<AtomicU64>,
     /// High-performance metrics collector
     metrics: Arc<AtomicCacheMetrics>,
     /// File operation semaphore to limit concurrent I/O
@@ -124,8 +124,8 @@ impl<K: CacheKey + 'static> DiskCache<K> {
         let cache = Self {
             config,
             index: Arc::new(RwLock::new(HashMap::new())),
-            entry_count: AtomicUsize::new(0),
-            disk_usage: AtomicU64::new(0),
+            entry_count: Arc::new(AtomicUsize::new(0)),
+            disk_usage: Arc::new(AtomicU64::new(0)),
             metrics,
             io_semaphore,
             cleanup_handle: None,
@@ -174,8 +174,10 @@ impl<K: CacheKey + 'static> DiskCache<K> {
         let index = Arc::clone(&self.index);
         let metrics = Arc::clone(&self.metrics);
         let config = self.config.clone();
-        let entry_count = Arc::new(AtomicUsize::new(0));
-        let disk_usage = Arc::new(AtomicU64::new(0));
+        // The task removes entries from the shared index, so it has to adjust the
+        // cache's own counters (size()/stats() report them), not private ones
+        let entry_count = Arc::clone(&self.entry_count);
+        let disk_usage = Arc::clone(&self.disk_usage);
 
         let handle = tokio::spawn(async move {
             let mut interval = interval(cleanup_interval);
@@ -235,6 +237,11 @@ impl<K: CacheKey + 'static> DiskCache<K> {
                     // Remove entries
                     for key in &entries_to_remove {
                         if let Some(entry) = index_guard.remove(key) {
+                            // The entry left the index: account for it whether or
+                            // not the file could be deleted
+                            removed_count += 1;
+                            freed_bytes += entry.size_bytes as u64;
+
                             // Delete file
                             if let Err(e) = fs::remove_file(&entry.file_path) {
                                 eprintln!(
@@ -242,18 +249,16 @@ impl<K: CacheKey + 'static> DiskCache<K> {
                                     entry.file_path.display(),
                                     e
                                 );
-                            } else {
-                                removed_count += 1;
-                                freed_bytes += entry.size_bytes as u64;
                             }
                         }
                     }
+
+                    // Counters change in the same locked step as the index
+                    entry_count.fetch_sub(removed_count, Ordering::Relaxed);
+                    disk_usage.fetch_sub(freed_bytes, Ordering::Relaxed);
                 }
 
                 if removed_count > 0 {
-                    entry_count.fetch_sub(removed_count, Ordering::Relaxed);
-                    disk_usage.fetch_sub(freed_bytes, Ordering::Relaxed);
-
                     // Update metrics
                     for _ in 0..removed_count {
                         metrics.record_eviction((freed_bytes / removed_count as u64) as usize);
